@@ -145,3 +145,9 @@ func vLogger() *log.Logger { return log.New(io.Discard, "", 0) }
 var vTierVal int
 
 func vTier() int { return vTierVal }
+
+// vIsSealed: natively, buf decrypts and authenticates under key with ad.
+func vIsSealed(buf, key, ad []byte) bool {
+	_, err := decryptPayload([][]byte{key}, append([]byte(nil), buf...), ad)
+	return err == nil
+}
